@@ -11,7 +11,7 @@ use swc_core::{
         ast::*,
         atoms::Atom,
         utils::{private_ident, quote_ident, quote_str},
-        visit::{VisitMut, VisitMutWith},
+        visit::{Visit, VisitMut, VisitMutWith, VisitWith},
     },
     plugin::errors::HANDLER,
 };
@@ -46,6 +46,7 @@ where
     define_component: Option<SyntaxContext>,
     interfaces: FnvHashMap<(Atom, SyntaxContext), TsInterfaceDecl>,
     type_aliases: FnvHashMap<(Atom, SyntaxContext), TsType>,
+    type_decls_collected: bool,
 
     unresolved_mark: Mark,
     comments: Option<C>,
@@ -73,6 +74,7 @@ where
             define_component: None,
             interfaces: Default::default(),
             type_aliases: Default::default(),
+            type_decls_collected: false,
 
             unresolved_mark,
             comments,
@@ -1274,6 +1276,15 @@ where
             &[("n", verif::V::N(module.body.len() as i64))],
         );
 
+        if self.options.resolve_type {
+            // type declarations are visible in their whole scope, also before they are written
+            module.visit_with(&mut TypeDeclCollector {
+                interfaces: &mut self.interfaces,
+                type_aliases: &mut self.type_aliases,
+            });
+            self.type_decls_collected = true;
+        }
+
         module.visit_mut_children_with(self);
         #[cfg(feature = "verif-trace")]
         verif::emit(
@@ -1628,7 +1639,7 @@ where
 
     fn visit_mut_ts_interface_decl(&mut self, ts_interface_decl: &mut TsInterfaceDecl) {
         ts_interface_decl.visit_mut_children_with(self);
-        if self.options.resolve_type {
+        if self.options.resolve_type && !self.type_decls_collected {
             let key = (ts_interface_decl.id.sym.clone(), ts_interface_decl.id.ctxt);
             if let Some(interface) = self.interfaces.get_mut(&key) {
                 interface
@@ -1651,7 +1662,7 @@ where
 
     fn visit_mut_ts_type_alias_decl(&mut self, ts_type_alias_decl: &mut TsTypeAliasDecl) {
         ts_type_alias_decl.visit_mut_children_with(self);
-        if self.options.resolve_type {
+        if self.options.resolve_type && !self.type_decls_collected {
             self.type_aliases.insert(
                 (
                     ts_type_alias_decl.id.sym.clone(),
@@ -1720,6 +1731,37 @@ where
             call,
             "name",
             Expr::Lit(Lit::Str(quote_str!(name.sym.clone()))),
+        );
+    }
+}
+
+struct TypeDeclCollector<'a> {
+    interfaces: &'a mut FnvHashMap<(Atom, SyntaxContext), TsInterfaceDecl>,
+    type_aliases: &'a mut FnvHashMap<(Atom, SyntaxContext), TsType>,
+}
+
+impl Visit for TypeDeclCollector<'_> {
+    fn visit_ts_interface_decl(&mut self, ts_interface_decl: &TsInterfaceDecl) {
+        ts_interface_decl.visit_children_with(self);
+        let key = (ts_interface_decl.id.sym.clone(), ts_interface_decl.id.ctxt);
+        if let Some(interface) = self.interfaces.get_mut(&key) {
+            interface
+                .body
+                .body
+                .extend_from_slice(&ts_interface_decl.body.body);
+        } else {
+            self.interfaces.insert(key, ts_interface_decl.clone());
+        }
+    }
+
+    fn visit_ts_type_alias_decl(&mut self, ts_type_alias_decl: &TsTypeAliasDecl) {
+        ts_type_alias_decl.visit_children_with(self);
+        self.type_aliases.insert(
+            (
+                ts_type_alias_decl.id.sym.clone(),
+                ts_type_alias_decl.id.ctxt,
+            ),
+            (*ts_type_alias_decl.type_ann).clone(),
         );
     }
 }
